@@ -771,6 +771,17 @@ func (be BlockExpr) Coq(needs_paren bool) string {
 	return addParens(needs_paren, pp.Build())
 }
 
+// ParenExpr is an expression printed in parentheses of its own: the
+// let-bindings of a block end at its closing parenthesis instead of extending
+// over whatever is printed after it.
+type ParenExpr struct {
+	X Expr
+}
+
+func (e ParenExpr) Coq(needs_paren bool) string {
+	return e.X.Coq(true)
+}
+
 type DerefExpr struct {
 	X  Expr
 	Ty Expr
